@@ -20,6 +20,7 @@ PLAN = {
     "c14_isolation": ["asan"],
     "c15_state": ["asan"],
     "c10_exc": ["asan"],
+    "c20_loc": ["asan"],
     "c13_threads": ["tsan"],
 }
 
